@@ -21,6 +21,7 @@ type KeyInfo struct {
 	Key  string
 	Path string
 	Type reflect.Type
+	Stored bool
 }
 
 // Op is one observed state-context operation.
@@ -77,14 +78,17 @@ func typeName(v interface{}) string {
 	return t.String()
 }
 
-func (o *Observer) register(key string, v util.MPTSerializable) {
-	if _, ok := o.ByKey[key]; ok {
-		if v != nil {
-			o.ByKey[key].Type = reflect.TypeOf(v)
+// register records a key; the Go type is taken from values actually STORED (insert). A read with a requested type only
+// types a key that was never seen stored (a contract may legitimately ask for a foreign key with its own type).
+func (o *Observer) register(key string, v util.MPTSerializable, stored bool) {
+	if ki, ok := o.ByKey[key]; ok {
+		if v != nil && (stored || ki.Type == nil) {
+			ki.Type = reflect.TypeOf(v)
+			ki.Stored = ki.Stored || stored
 		}
 		return
 	}
-	ki := &KeyInfo{Key: key, Path: encryption.Hash(key)}
+	ki := &KeyInfo{Key: key, Path: encryption.Hash(key), Stored: stored}
 	if v != nil {
 		ki.Type = reflect.TypeOf(v)
 	}
@@ -126,7 +130,7 @@ func (o *Observer) ObsGet(sc *cstate.StateContext, key datastore.Key, v util.MPT
 	defer o.mu.Unlock()
 	th := txnHash(sc)
 	o.beginIfNew(th)
-	o.register(key, v)
+	o.register(key, v, false)
 	if cacheHit {
 		o.HitsByType[tn]++
 	} else {
@@ -174,7 +178,7 @@ func (o *Observer) ObsInsert(sc *cstate.StateContext, key datastore.Key, v util.
 	o.mu.Lock()
 	th := txnHash(sc)
 	o.beginIfNew(th)
-	o.register(key, v)
+	o.register(key, v, true)
 	o.InsByType[tn]++
 	o.forget(key)
 	if o.LogOps {
@@ -193,7 +197,7 @@ func (o *Observer) ObsDelete(sc *cstate.StateContext, key datastore.Key) {
 	defer o.mu.Unlock()
 	th := txnHash(sc)
 	o.beginIfNew(th)
-	o.register(key, nil)
+	o.register(key, nil, false)
 	o.forget(key)
 	if o.LogOps {
 		o.Ops = append(o.Ops, Op{Kind: "delete", Key: key, TxnHash: th})
